@@ -33,6 +33,7 @@ inductive Err
   | success | blockNotReady | scanTimeout | tooManyMatches | callbackError | callbackRequired
   | exec (code : Nat)     -- any other error raised by rule evaluation (e.g. ERROR_EXEC_STACK_OVERFLOW)
   | iter (code : Nat)     -- any other error left in `iterator->last_error`
+  | verify (code : Nat)   -- error raised while verifying a candidate in the block loop (e.g. ERROR_TOO_MANY_RE_FIBERS)
 deriving DecidableEq, Repr
 
 structure Match where
@@ -111,6 +112,7 @@ structure Params where
   maxMatches : Nat                         -- YR_MAX_STRING_MATCHES
   cands : Nat → List Cand                  -- by data key, in discovery order
   ep : Nat → Nat → Option Nat              -- yr_get_entry_point_offset(data, size)
+  scanErr : Nat → Option Nat               -- by data key: verification in this block fails with that error code
   cond : Nat → View → Prog
   modParse : Nat → Option (Block → Bool)   -- none: the module's load does not touch the blocks
 
@@ -261,7 +263,10 @@ def scanBlock (P : Params) (cb : Nat → CbRet) (set : Settings) (b : Block) (c 
   | some d =>
     let c := if c.entryPoint.isNone then { c with entryPoint := P.ep d b.size } else c
     if decide (b.size > 0) && timedOut set c w then (c, w, [], .scanTimeout)
-    else addCands P cb b (P.cands d) c w
+    else
+      match P.scanErr d with
+      | some code => (c, w, [], .verify code)      -- `_yr_scanner_scan_mem_block` returns the verifier's error (:522-546)
+      | none => addCands P cb b (P.cands d) c w
 
 structure LoopOut where
   core : Core
